@@ -54,6 +54,29 @@ def sabotage(trace, rng):
     return trace, k + 1, "counter"
 
 
+def apalache_extra(ctx):
+    """thorough tier only: inductive invariant of ConfirmedElection's counters for ANY number of calls (Apalache).
+    An addition to the TLC runs; skipped (and said so) if the tool is unavailable or too slow."""
+    import os
+    import shutil
+    import subprocess
+    out = tlc.scratch("apa")
+    spec = os.path.join(tlc.SPEC, "Apa_Confirmed.tla")
+    res = {}
+    for name, args in (("Init => IndInv", ["--init=Init", "--length=0"]), ("IndInv /\\ Next => IndInv'", ["--init=IndInit", "--length=1"])):
+        try:
+            r = subprocess.run(["apalache-mc", "check", "--cinit=CInit", "--inv=IndInv", "--out-dir=" + out] + args + [spec],
+                               capture_output=True, text=True, timeout=600, cwd=tlc.scratch("apacwd") and os.path.dirname(out))
+            ok = "EXITCODE: OK" in r.stdout
+            res[name] = "discharged" if ok else "FAILED"
+            if not ok and "EXITCODE: ERROR" in r.stdout and "error" in r.stdout.lower() and "Checker reports" in r.stdout:
+                raise tlc.MachineryError("Apalache refutes the inductive invariant of ConfirmedElection: " + r.stdout[-800:])
+        except (OSError, subprocess.TimeoutExpired) as ex:
+            res[name] = "skipped (%s)" % type(ex).__name__
+    shutil.rmtree(out, ignore_errors=True)
+    ctx.parts["apalache:Apa_Confirmed (4 members, wait_time 0..5, sensitivity 0..5, unbounded calls)"] = res
+
+
 def run(ctx):
     q, rng = ctx.quick, ctx.rng
     suffix = "" if q else "_deep"
@@ -99,6 +122,8 @@ def run(ctx):
     ctx.validate("Election", traces, "ConfirmedElection random walks", sabotage=sabotage,
                  replay=lambda i: {"walk": traces[i]["cfg"], "votes": [e["v"] for e in traces[i]["ev"]]},
                  nontrivial=lambda t: any(e["out"] != "None" for e in t["ev"]))
+    if not q:
+        apalache_extra(ctx)
     ctx.assumptions += ["members are stub objects exposing only drift_state (elections read nothing else)"]
     return ctx.finish(extra={"exhaustive": True})
 
